@@ -118,7 +118,7 @@ by fix 568afd2 and is now a fixed case of harness/c19 `dest.rs`. -/
 theorem C19_html_confined_false : ¬ C19_html_confined_stmt := by
   intro h
   let r : Rec := ⟨[46, 46, 99], [46, 46, 99], {}⟩
-  have hw := h {} ⟨[], [], []⟩ [([46, 46, 99], {})] [r] [.normal [111]] (by decide) r (by simp)
+  have hw := h {} { files := [], dirs := [], cwd := [] } [([46, 46, 99], {})] [r] [.normal [111]] (by decide) r (by simp)
     ⟨.createFile, .out, [.normal [111], .parent]⟩ (by decide)
   revert hw
   decide
@@ -166,7 +166,7 @@ directory (a directory, so `File::create` fails and nothing is written: the file
 page). -/
 theorem C19_html_dotdot_name_escapes :
     let out : Path := [.normal [111]]
-    rewriteKey {} ⟨[], [], []⟩ ([46, 46, 99], {}) = .ok (some ⟨[46, 46, 99], [46, 46, 99], {}⟩) ∧
+    rewriteKey {} { files := [], dirs := [], cwd := [] } ([46, 46, 99], {}) = .ok (some ⟨[46, 46, 99], [46, 46, 99], {}⟩) ∧
       htmlFileDest out [46, 46, 99] = [.normal [111], .parent] ∧
       ¬ Under out (htmlFileDest out [46, 46, 99]) := by
   decide
